@@ -19,6 +19,7 @@ func c19(r *core.Run) {
 	r.NotDecided = []string{"value-level equality of every record after a real export/import", "bank/auth module state (SDK)"}
 	r.Rule("C19/R1", "completeness: every prefix written by transactions or block processing is written by InitGenesis and read by ExportGenesis, or is a derived index co-written with an exported prefix at every write site")
 	r.Rule("C19/R2", "typed round trip: a prefix read by ExportGenesis and written by InitGenesis holds exactly one type (C18/R1 for that prefix)")
+	r.Rule("C19/R4", "genesis validation: each duplicate-index map of GenesisState.Validate is used for exactly one record kind")
 	r.Rule("C19/R3", "field pairing: every GenesisState field is assigned in ExportGenesis and read in InitGenesis")
 	hs, err := p.Handlers()
 	if err != nil {
@@ -134,6 +135,87 @@ func c19(r *core.Run) {
 		}
 	}
 	r.Floor("C19/R1", nW, 18, "record kinds written by transactions")
+	// ---- R4 genesis validation keeps one duplicate-index map per record kind
+	nMaps := 0
+	for _, m := range core.CustomModules {
+		vf := p.FuncByName("x/"+m+"/types", "GenesisState", "Validate")
+		if vf == nil || vf.Blocks == nil {
+			continue
+		}
+		r.Analysed(core.FnName(vf))
+		uses := map[*ssa.MakeMap]map[string]bool{}
+		note := func(mv ssa.Value, key ssa.Value, at ssa.Instruction) {
+			mm, ok := mv.(*ssa.MakeMap)
+			if !ok {
+				return
+			}
+			if uses[mm] == nil {
+				uses[mm] = map[string]bool{}
+			}
+			for _, a := range p.ProvAt(key, "", at).DataAtoms() {
+				if a.Kind == "param" && a.Idx == 0 {
+					f := strings.TrimPrefix(a.Path, ".")
+					if i := strings.Index(f, "["); i >= 0 {
+						f = f[:i]
+					}
+					uses[mm][f] = true
+				}
+			}
+		}
+		allInstrs(vf, func(in ssa.Instruction) {
+			switch x := in.(type) {
+			case *ssa.Lookup:
+				note(x.X, x.Index, x)
+			case *ssa.MapUpdate:
+				note(x.Map, x.Key, x)
+			case ssa.CallInstruction:
+				// a duplicate-check helper taking (map, key): attribute its map operations to this call site
+				for _, cal := range p.Callees(x) {
+					allInstrs(cal, func(hin ssa.Instruction) {
+						var mv, kv ssa.Value
+						switch y := hin.(type) {
+						case *ssa.Lookup:
+							mv, kv = y.X, y.Index
+						case *ssa.MapUpdate:
+							mv, kv = y.Map, y.Key
+						default:
+							return
+						}
+						prm, ok := mv.(*ssa.Parameter)
+						if !ok {
+							return
+						}
+						for i, pp := range cal.Params {
+							if pp == prm && i < len(x.Common().Args) {
+								mm, isMk := x.Common().Args[i].(*ssa.MakeMap)
+								if !isMk {
+									continue
+								}
+								if uses[mm] == nil {
+									uses[mm] = map[string]bool{}
+								}
+								for _, a := range p.ResolveAlong(p.ProvAt(kv, "", hin), []ssa.CallInstruction{x}).DataAtoms() {
+									if a.Kind == "param" && a.Fn == vf && a.Idx == 0 {
+										f := strings.TrimPrefix(a.Path, ".")
+										if j := strings.Index(f, "["); j >= 0 {
+											f = f[:j]
+										}
+										uses[mm][f] = true
+									}
+								}
+							}
+						}
+					})
+				}
+			}
+		})
+		for mm, fs := range uses {
+			nMaps++
+			r.Check(len(fs) == 1, "C19/R4", fmt.Sprintf("%s:validate:index-map-per-kind:%s", m, strings.Join(sortedKeys(fs), "+")), p.InstrPos(mm),
+				"duplicate-index map used for one record kind", "GenesisState.Validate checks duplicates of different record kinds ("+strings.Join(sortedKeys(fs), ", ")+") in one shared map: an exported genesis in which two kinds share a key (e.g. a provider that also owns a storage plan) is rejected, so export->validate->import fails")
+		}
+	}
+	r.Floor("C19/R4", nMaps, 6, "duplicate-index maps in genesis validation")
 }
 
 // derivedIndex: every call site that Sets module/prefix also Sets, at the same site, some exported prefix of the module.
